@@ -359,8 +359,10 @@ impl Sim {
             let derived = derived || (property == "C08" && t.starts_with("C08/"));
             // a fork that went unnoticed leaves old entries behind, but it does not undo what a
             // proven answer consumed afterwards has written
-            let independent = v.key() == "C16/proven_fetch_answer_left_the_transaction_paired_with_another_block"
-                && (t.starts_with("C04/fork_unnoticed") || t.starts_with("C04/fork_switch_without_rollback"));
+            let independent = (v.key() == "C16/proven_fetch_answer_left_the_transaction_paired_with_another_block"
+                && (t.starts_with("C04/fork_unnoticed") || t.starts_with("C04/fork_switch_without_rollback")))
+                // judged from the message and the state right before it: no consequence of anything
+                || v.key() == "C09/script_raised_over_a_pending_record_by_a_filters_message_that_does_not_continue";
             if derived && *t != v.key() && !independent {
                 self.stat(&format!("suppressed_consequence.{}", property));
                 return;
@@ -559,7 +561,9 @@ impl Sim {
     /// A peer puts a message on the wire towards the client (mutations already applied).
     pub fn peer_send_raw(&mut self, p: usize, session: usize, proto: Proto, data: Bytes, tag: Tag) {
         let lat = self.latency(p);
-        let mut at = self.now + lat;
+        // "late duplicate:<ms>": the second copy of an answer, on the wire that much later
+        let extra = tag.note.strip_prefix("late duplicate:").and_then(|v| v.parse::<u64>().ok()).unwrap_or(0);
+        let mut at = self.now + lat + extra;
         let last = self.peers[p].last_deliver.get(&proto).cloned().unwrap_or(0);
         if at <= last {
             at = last + 1;
@@ -852,6 +856,27 @@ impl Sim {
                 break;
             }
             let w0 = crate::runner::bounds_now();
+            if self.record_writes {
+                // C17: the boundaries of this event are named with the state they are met in, so
+                // that the site-stratified choice of the pause boundary also finds the rare
+                // combinations (e.g. the filter timer's lock while a stored matched-blocks record
+                // is not yet recovered into the empty in-memory map)
+                let ctx = match self.client.as_ref() {
+                    Some(c) => {
+                        let stored = c.storage.get_earliest_matched_blocks().is_some();
+                        let in_memory = !c.peers.matched_blocks().read().unwrap_or_else(|e| e.into_inner()).is_empty();
+                        let fetching = !c.peers.get_headers_to_fetch().is_empty() || !c.peers.get_txs_to_fetch().is_empty();
+                        format!(
+                            "[{}{}{}]",
+                            if stored { "R" } else { "-" },
+                            if in_memory { "M" } else { "-" },
+                            if fetching { "F" } else { "-" }
+                        )
+                    }
+                    None => String::new(),
+                };
+                crate::runner::set_bound_context(ctx);
+            }
             self.dispatch(item.ev);
             if self.record_writes {
                 let w1 = crate::runner::bounds_now();
